@@ -87,6 +87,7 @@ def ser_post(r: int, k: int, m: int, value_term: str, value_args: str) -> typing
         ("touched-bytes-hold-the-old-low-bits-and-exactly-the-value-bits",
          f"smt('Bool', '(= {le_new} (+ (select {{2}} {{1}}) (* {2 ** r} {value_term})))', self._buf.arr, {B_OLD}, old(self._buf.arr){value_args})"),
         ("buffer-length-unchanged", "self._buf.n == old(self._buf.n)"),
+        ("touched-bytes-are-bytes", "smt('Bool', '(and " + " ".join(f"(<= 0 (select {{0}} (+ {{1}} {j}))) (<= (select {{0}} (+ {{1}} {j})) 255)" for j in range(m)) + f")', self._buf.arr, {B_OLD})"),
     ]
 
 
